@@ -13,6 +13,37 @@ use std::collections::BTreeMap;
 /// A mismatch found by the positional comparison: (clause, detail).
 pub type Mismatch = (&'static str, String);
 
+/// Collector of the positional comparison.  The walk never stops at a
+/// mismatch: it records the first one and keeps pairing what can still be
+/// paired, so that the checks of *other* properties (which need the complete
+/// set of reachable identities) are not starved by a mismatch that only C02
+/// cares about.  `structural` is set when positions could not be aligned
+/// (different lengths, kinds or presence): the set of pairs is then incomplete.
+#[derive(Default)]
+pub struct Cmp {
+    pub pairs: Vec<(MetaType, u32)>,
+    pub first: Option<Mismatch>,
+    pub structural: bool,
+}
+
+impl Cmp {
+    fn note(&mut self, clause: &'static str, detail: impl FnOnce() -> String) {
+        if self.first.is_none() {
+            self.first = Some((clause, detail()));
+        }
+    }
+    fn structural(&mut self, clause: &'static str, detail: impl FnOnce() -> String) {
+        self.structural = true;
+        self.note(clause, detail);
+    }
+    pub fn result(&self) -> Result<(), Mismatch> {
+        match &self.first {
+            Some(m) => Err(m.clone()),
+            None => Ok(()),
+        }
+    }
+}
+
 fn strs_eq(m: &[&'static str], p: &[String]) -> bool {
     m.len() == p.len() && m.iter().zip(p).all(|(a, b)| *a == b.as_str())
 }
@@ -25,131 +56,97 @@ fn opt_eq(m: &Option<&'static str>, p: &Option<String>) -> bool {
     }
 }
 
-pub fn cmp_field(
-    m: &Field<MetaForm>,
-    p: &Field<PortableForm>,
-    out: &mut Vec<(MetaType, u32)>,
-) -> Result<(), Mismatch> {
+pub fn cmp_field(m: &Field<MetaForm>, p: &Field<PortableForm>, c: &mut Cmp) {
     if !opt_eq(&m.name, &p.name) {
-        return Err(("field.name", format!("{:?} vs {:?}", m.name, p.name)));
+        c.note("field.name", || format!("{:?} vs {:?}", m.name, p.name));
     }
     if !opt_eq(&m.type_name, &p.type_name) {
-        return Err(("field.type_name", format!("{:?} vs {:?}", m.type_name, p.type_name)));
+        c.note("field.type_name", || format!("{:?} vs {:?}", m.type_name, p.type_name));
     }
     if !strs_eq(&m.docs, &p.docs) {
-        return Err(("field.docs", format!("{:?} vs {:?}", m.docs, p.docs)));
+        c.note("field.docs", || format!("{:?} vs {:?}", m.docs, p.docs));
     }
-    out.push((m.ty, p.ty.id));
-    Ok(())
+    c.pairs.push((m.ty, p.ty.id));
 }
 
-pub fn cmp_fields(
-    m: &[Field<MetaForm>],
-    p: &[Field<PortableForm>],
-    out: &mut Vec<(MetaType, u32)>,
-) -> Result<(), Mismatch> {
+pub fn cmp_fields(m: &[Field<MetaForm>], p: &[Field<PortableForm>], c: &mut Cmp) {
     if m.len() != p.len() {
-        return Err(("fields.len", format!("{} vs {}", m.len(), p.len())));
+        c.structural("fields.len", || format!("{} vs {}", m.len(), p.len()));
     }
     for (a, b) in m.iter().zip(p) {
-        cmp_field(a, b, out)?;
+        cmp_field(a, b, c);
     }
-    Ok(())
 }
 
-pub fn cmp_variant(
-    m: &Variant<MetaForm>,
-    p: &Variant<PortableForm>,
-    out: &mut Vec<(MetaType, u32)>,
-) -> Result<(), Mismatch> {
+pub fn cmp_variant(m: &Variant<MetaForm>, p: &Variant<PortableForm>, c: &mut Cmp) {
     if m.name != p.name.as_str() {
-        return Err(("variant.name", format!("{:?} vs {:?}", m.name, p.name)));
+        c.note("variant.name", || format!("{:?} vs {:?}", m.name, p.name));
     }
     if m.index != p.index {
-        return Err(("variant.index", format!("{} vs {}", m.index, p.index)));
+        c.note("variant.index", || format!("{} vs {}", m.index, p.index));
     }
     if !strs_eq(&m.docs, &p.docs) {
-        return Err(("variant.docs", format!("{:?} vs {:?}", m.docs, p.docs)));
+        c.note("variant.docs", || format!("{:?} vs {:?}", m.docs, p.docs));
     }
-    cmp_fields(&m.fields, &p.fields, out)
+    cmp_fields(&m.fields, &p.fields, c);
 }
 
-pub fn cmp_param(
-    m: &TypeParameter<MetaForm>,
-    p: &TypeParameter<PortableForm>,
-    out: &mut Vec<(MetaType, u32)>,
-) -> Result<(), Mismatch> {
+pub fn cmp_param(m: &TypeParameter<MetaForm>, p: &TypeParameter<PortableForm>, c: &mut Cmp) {
     if m.name != p.name.as_str() {
-        return Err(("param.name", format!("{:?} vs {:?}", m.name, p.name)));
+        c.note("param.name", || format!("{:?} vs {:?}", m.name, p.name));
     }
     match (&m.ty, &p.ty) {
         (None, None) => {}
-        (Some(a), Some(b)) => out.push((*a, b.id)),
-        _ => {
-            return Err((
-                "param.presence",
-                format!("{:?}: {:?} vs {:?}", m.name, m.ty.is_some(), p.ty.is_some()),
-            ))
-        }
+        (Some(a), Some(b)) => c.pairs.push((*a, b.id)),
+        _ => c.structural("param.presence", || {
+            format!("{:?}: {:?} vs {:?}", m.name, m.ty.is_some(), p.ty.is_some())
+        }),
     }
-    Ok(())
 }
 
-pub fn cmp_def(
-    m: &TypeDef<MetaForm>,
-    p: &TypeDef<PortableForm>,
-    out: &mut Vec<(MetaType, u32)>,
-) -> Result<(), Mismatch> {
+pub fn cmp_def(m: &TypeDef<MetaForm>, p: &TypeDef<PortableForm>, c: &mut Cmp) {
     match (m, p) {
-        (TypeDef::Composite(a), TypeDef::Composite(b)) => cmp_fields(&a.fields, &b.fields, out),
+        (TypeDef::Composite(a), TypeDef::Composite(b)) => cmp_fields(&a.fields, &b.fields, c),
         (TypeDef::Variant(a), TypeDef::Variant(b)) => {
             if a.variants.len() != b.variants.len() {
-                return Err((
-                    "variants.len",
-                    format!("{} vs {}", a.variants.len(), b.variants.len()),
-                ));
+                c.structural("variants.len", || {
+                    format!("{} vs {}", a.variants.len(), b.variants.len())
+                });
             }
             for (x, y) in a.variants.iter().zip(&b.variants) {
-                cmp_variant(x, y, out)?;
+                cmp_variant(x, y, c);
             }
-            Ok(())
         }
         (TypeDef::Sequence(a), TypeDef::Sequence(b)) => {
-            out.push((a.type_param, b.type_param.id));
-            Ok(())
+            c.pairs.push((a.type_param, b.type_param.id));
         }
         (TypeDef::Array(a), TypeDef::Array(b)) => {
             if a.len != b.len {
-                return Err(("array.len", format!("{} vs {}", a.len, b.len)));
+                c.note("array.len", || format!("{} vs {}", a.len, b.len));
             }
-            out.push((a.type_param, b.type_param.id));
-            Ok(())
+            c.pairs.push((a.type_param, b.type_param.id));
         }
         (TypeDef::Tuple(a), TypeDef::Tuple(b)) => {
             if a.fields.len() != b.fields.len() {
-                return Err(("tuple.arity", format!("{} vs {}", a.fields.len(), b.fields.len())));
+                c.structural("tuple.arity", || format!("{} vs {}", a.fields.len(), b.fields.len()));
             }
             for (x, y) in a.fields.iter().zip(&b.fields) {
-                out.push((*x, y.id));
+                c.pairs.push((*x, y.id));
             }
-            Ok(())
         }
         (TypeDef::Primitive(a), TypeDef::Primitive(b)) => {
             if a != b {
-                return Err(("primitive", format!("{:?} vs {:?}", a, b)));
+                c.note("primitive", || format!("{:?} vs {:?}", a, b));
             }
-            Ok(())
         }
         (TypeDef::Compact(a), TypeDef::Compact(b)) => {
-            out.push((a.type_param, b.type_param.id));
-            Ok(())
+            c.pairs.push((a.type_param, b.type_param.id));
         }
         (TypeDef::BitSequence(a), TypeDef::BitSequence(b)) => {
-            out.push((a.bit_store_type, b.bit_store_type.id));
-            out.push((a.bit_order_type, b.bit_order_type.id));
-            Ok(())
+            c.pairs.push((a.bit_store_type, b.bit_store_type.id));
+            c.pairs.push((a.bit_order_type, b.bit_order_type.id));
         }
-        _ => Err(("def.kind", format!("{} vs {}", kind_of(m), kind_of(p)))),
+        _ => c.structural("def.kind", || format!("{} vs {}", kind_of(m), kind_of(p))),
     }
 }
 
@@ -169,27 +166,22 @@ pub fn kind_of<F: scale_info::form::Form>(d: &TypeDef<F>) -> &'static str {
 /// Member-by-member comparison of `type_info()` with a portable definition;
 /// every position where the compile-time side holds a `MetaType` yields a pair
 /// (that meta type, the id at the same position on the portable side).
-pub fn cmp_type(
-    m: &Type<MetaForm>,
-    p: &Type<PortableForm>,
-    out: &mut Vec<(MetaType, u32)>,
-) -> Result<(), Mismatch> {
+pub fn cmp_type(m: &Type<MetaForm>, p: &Type<PortableForm>, c: &mut Cmp) {
     if !strs_eq(&m.path.segments, &p.path.segments) {
-        return Err(("path", format!("{:?} vs {:?}", m.path.segments, p.path.segments)));
+        c.note("path", || format!("{:?} vs {:?}", m.path.segments, p.path.segments));
     }
     if m.type_params.len() != p.type_params.len() {
-        return Err((
-            "params.len",
-            format!("{} vs {}", m.type_params.len(), p.type_params.len()),
-        ));
+        c.structural("params.len", || {
+            format!("{} vs {}", m.type_params.len(), p.type_params.len())
+        });
     }
     for (a, b) in m.type_params.iter().zip(&p.type_params) {
-        cmp_param(a, b, out)?;
+        cmp_param(a, b, c);
     }
     if !strs_eq(&m.docs, &p.docs) {
-        return Err(("type.docs", format!("{:?} vs {:?}", m.docs, p.docs)));
+        c.note("type.docs", || format!("{:?} vs {:?}", m.docs, p.docs));
     }
-    cmp_def(&m.type_def, &p.type_def, out)
+    cmp_def(&m.type_def, &p.type_def, c);
 }
 
 // ---------------------------------------------------------------------------
